@@ -71,6 +71,8 @@ structure Obj where
   hBuilt : Bool            -- `_H_int is not None`
   shelf : Shelf            -- source of `_H_shelf` (never `None` after construction)
   seedV : Nat := 2024      -- `seed_v`, a plain attribute (constructor default 2024)
+  cfgId : Nat := 0         -- which configuration is attached NOW (opcond contents edited in place or replaced,
+                           -- `dt`, …: plain attributes and a mutable object; abstract version number)
 deriving DecidableEq, Repr
 
 /-- the draw schedule of one run -/
@@ -151,6 +153,7 @@ inductive Act where
   | setSeedV (v : Nat)     -- `S.seed_v = v`
   | readShelf              -- `_ = S.H_shelf`
   | readInt                -- `_ = S.H_int` (or `H_ext`)
+  | editCfg (k : Nat)      -- in-place edit of the attached opcond / `S.dt = …` / `S.opcond = …`: configuration `k`
 deriving DecidableEq, Repr
 
 /-- result of a history: final object, events per operation, schedules of the runs
@@ -162,6 +165,8 @@ structure Trace where
   /-- per run: the vial seed and vial count the kinetic deviates `xi_v` are drawn with (the global legacy
   generator is re-seeded with the CURRENT `seed_v` at the start of every run) -/
   xis : List (Nat × Nat) := []
+  /-- per run: the configuration the run reads (the one attached at that moment; nothing is cached) -/
+  cfgs : List Nat := []
 deriving DecidableEq, Repr
 
 def step (runF : Cfg → Obj → Obj × Sched × List Ev) (c : Cfg) (t : Trace) : Act → Trace
@@ -170,11 +175,13 @@ def step (runF : Cfg → Obj → Obj × Sched × List Ev) (c : Cfg) (t : Trace) 
   | .build => { t with obj := (buildMatrices c t.obj).1, evs := t.evs ++ [(buildMatrices c t.obj).2] }
   | .run => { obj := (runF c t.obj).1, evs := t.evs ++ [(runF c t.obj).2.2],
               scheds := t.scheds ++ [(runF c t.obj).2.1],
-              xis := t.xis ++ [(t.obj.seedV, t.obj.nv.total)] }
+              xis := t.xis ++ [(t.obj.seedV, t.obj.nv.total)],
+              cfgs := t.cfgs ++ [t.obj.cfgId] }
   | .setN nv => { t with obj := { t.obj with nv := nv }, evs := t.evs ++ [[]] }
   | .setSeedV v => { t with obj := { t.obj with seedV := v }, evs := t.evs ++ [[]] }
   | .readShelf => { t with obj := (getHShelf c t.obj).1, evs := t.evs ++ [(getHShelf c t.obj).2] }
   | .readInt => { t with obj := (getHInt c t.obj).1, evs := t.evs ++ [(getHInt c t.obj).2] }
+  | .editCfg k => { t with obj := { t.obj with cfgId := k }, evs := t.evs ++ [[]] }
 
 def execFrom (runF : Cfg → Obj → Obj × Sched × List Ev) (c : Cfg) (o : Obj) (h : List Act) : Trace :=
   h.foldl (step runF c) { obj := o, evs := [], scheds := [] }
@@ -200,6 +207,13 @@ def seedAfter (s0 : Nat) : List Act → Nat
   | .new s _ :: h => seedAfter s h
   | .setSeed s :: h => seedAfter s h
   | _ :: h => seedAfter s0 h
+
+/-- the configuration attached after a history -/
+def cfgAfter (k0 : Nat) : List Act → Nat
+  | [] => k0
+  | .new _ _ :: h => cfgAfter 0 h
+  | .editCfg k :: h => cfgAfter k h
+  | _ :: h => cfgAfter k0 h
 
 /-- the vial seed in force after a history -/
 def seedVAfter (v0 : Nat) : List Act → Nat
